@@ -51,6 +51,8 @@ def main():
     patch = os.path.join(d, 'patch.diff')
     res = {'property': pid, 'name': name, 'scratch': wt}
     sh('git checkout -- . ', cwd=wt)
+    evid = os.path.join(VERIF, 'evidence', pid + '.json')
+    saved_evidence = open(evid).read() if os.path.exists(evid) else None     # the mutated run must not replace the clean-tree evidence
     rc, out = sh(['git', 'apply', patch], cwd=wt)
     if rc != 0:
         print('patch does not apply:', out); return 2
@@ -82,6 +84,8 @@ def main():
     sh('make 2>&1 | tail -1', cwd=wt)
     # the check regenerated lean/Librfn/Gen from the mutated scratch tree: put the files for /repo back
     sh([sys.executable, os.path.join(VERIF, 'tools', 'regen_all.py')], cwd=VERIF)
+    if saved_evidence is not None:
+        open(evid, 'w').write(saved_evidence)
     rc, out = sh(res.get('demo_cmd', 'false'), cwd=d, timeout=1200)
     res['demo_rc_pristine'] = rc
     ok = res.get('tests_pass_with_change') == 17 and res.get('tests_fail_with_change') == 0 and res.get('demo_rc_with_change', 0) != 0 and rc == 0
